@@ -69,6 +69,8 @@ def gen_c(exps, compiler):
         body.append(f"  {name}_callee({args});")
         for q, t in enumerate(types):
             kind, grp, rid, off, ind = locs[q]
+            if abi == "vectorcall64" and kind == "stack":
+                off -= 32     # clang on a non-Windows x86-64 target keeps the positional 8-byte slots but omits the 32-byte home area
             body.append(f'  expect("{sig}", {q}, {sizes[q]}, {0 if kind == "reg" else 1}, {0 if grp == "gp" else 1}, {rid}, {off}, {1 if ind else 0});')
         body.append("}")
         out.append("\n".join(body))
@@ -97,3 +99,114 @@ def run(exps, workdir, log):
         res[compiler] = (nsig, checked, len(mism) if chk else -1, mism[:20] if chk else ["RUN FAILED rc=%s %s" % (r.returncode, r.stdout[-500:])])
         log(f"model validation vs {compiler}: {nsig} signatures, {checked} argument placements compared, {len(mism)} mismatches")
     return res
+
+
+# ----------------------------------------------------------------------------------------------------------
+# AArch64 (AAPCS64 and Apple): no runtime in the sandbox, but clang cross-compiles.  The caller side is compiled to
+# assembly (-O1) and a small data-flow walk finds which global (= which argument) sits in which register / outgoing
+# stack slot at the `bl`.
+# ----------------------------------------------------------------------------------------------------------
+XTYPE = {"i8": "signed char", "u16": "unsigned short", "i32": "int", "i64": "long long", "f32": "float", "f64": "double",
+         "i32x2": "v2si", "f32x4": "v4sf"}
+PROMOTED = {"i8", "u8", "i16", "u16", "f32"}     # changed by the default argument promotions -> not usable as variadic arguments
+import re as _re
+
+
+def _reg(tok):
+    tok = tok.strip().rstrip(",")
+    m = _re.fullmatch(r"([wx])(\d+)", tok)
+    if m:
+        return ("gp", int(m.group(2)), 4 if m.group(1) == "w" else 8)
+    m = _re.fullmatch(r"([bhsdq])(\d+)", tok)
+    if m:
+        return ("vec", int(m.group(2)), {"b": 1, "h": 2, "s": 4, "d": 8, "q": 16}[m.group(1)])
+    m = _re.fullmatch(r"v(\d+)\.\w+", tok)
+    if m:
+        return ("vec", int(m.group(1)), 16)
+    return None
+
+
+def _walk_a64(lines):
+    """-> (register tags, stack tags) at the first bl."""
+    tag, stack = {}, {}
+    for ln in lines:
+        ln = ln.split("//")[0].split(";")[0].strip()
+        if not ln or ln.endswith(":") or ln.startswith("."):
+            continue
+        parts = ln.split(None, 1)
+        op, rest = parts[0], (parts[1] if len(parts) > 1 else "")
+        if op == "bl":
+            return tag, stack
+        ops = [o.strip() for o in _re.split(r",\s*(?![^\[]*\])", rest)]
+        m = _re.search(r"\[(\w+)(?:,\s*#?(-?\w+))?\](!?)", rest)
+        sym = _re.search(r"(?::lo12:|\b_)(g\d+_\d+)", rest)
+        if op.startswith("ldr") or op.startswith("ldur"):
+            r = _reg(ops[0])
+            if r:
+                tag[r[:2]] = sym.group(1) if sym else None
+            continue
+        if op in ("str", "strb", "strh", "stur", "sturb", "sturh", "stp"):
+            if m and m.group(1) == "sp" and not m.group(3):
+                off = int(m.group(2)) if m.group(2) else 0
+                r = _reg(ops[0])
+                if r:
+                    stack[off] = tag.get(r[:2])
+                if op == "stp":
+                    r2 = _reg(ops[1])
+                    if r and r2:
+                        stack[off + r[2]] = tag.get(r2[:2])
+            continue
+        d = _reg(ops[0]) if ops else None
+        if d is None:
+            continue
+        if op in ("mov", "fmov", "sxtb", "sxth", "sxtw", "uxtb", "uxth", "and") and len(ops) >= 2 and _reg(ops[1]):
+            tag[d[:2]] = tag.get(_reg(ops[1])[:2])
+        else:
+            tag[d[:2]] = None
+    return tag, stack
+
+
+def run_cross(exps, workdir, log):
+    """exps: (abi, types, sizes, locs, va) for aapcs64 / apple64.  Returns (signatures, placements, mismatch lines)."""
+    tot_sig = tot_pl = 0
+    mism = []
+    for abi, target in (("aapcs64", "aarch64-linux-gnu"), ("apple64", "arm64-apple-macos11")):
+        todo = []
+        for e in exps:
+            if e[0] != abi or any(t not in XTYPE for t in e[1]) or not e[1]:
+                continue
+            va = e[4]
+            if va != 255 and (va < 1 or any(t in PROMOTED for t in e[1][va:])):
+                continue
+            todo.append(e)
+        src = ["typedef int v2si __attribute__((vector_size(8)));", "typedef float v4sf __attribute__((vector_size(16)));"]
+        for n, (a, types, sizes, locs, va) in enumerate(todo):
+            for q, t in enumerate(types):
+                src.append(f"volatile {XTYPE[t]} g{n}_{q};")
+            named = types if va == 255 else types[:va]
+            proto = ", ".join(XTYPE[t] for t in named) + ("" if va == 255 else ", ...")
+            src.append(f"void callee{n}({proto});")
+            src.append(f"void caller{n}(void) {{ callee{n}({', '.join(f'g{n}_{q}' for q in range(len(types)))}); }}")
+        cpath = os.path.join(workdir, f"ccval_{abi}.c")
+        open(cpath, "w").write("\n".join(src) + "\n")
+        p = subprocess.run(["clang-14", "-target", target, "-fno-pic", "-O1", "-w", "-S", "-o", "-", cpath], stdout=subprocess.PIPE, stderr=subprocess.PIPE, text=True)
+        if p.returncode != 0:
+            return 0, 0, [f"clang -target {target} failed: {p.stderr[-600:]}"]
+        funcs, cur = {}, None
+        for ln in p.stdout.splitlines():
+            m = _re.match(r"_?caller(\d+):", ln)
+            if m:
+                cur = int(m.group(1))
+                funcs[cur] = []
+            elif cur is not None:
+                funcs[cur].append(ln)
+        for n, (a, types, sizes, locs, va) in enumerate(todo):
+            tag, stack = _walk_a64(funcs.get(n, []))
+            tot_sig += 1
+            for q, (kind, grp, rid, off, ind) in enumerate(locs):
+                got = tag.get((grp, rid)) if kind == "reg" else stack.get(off)
+                tot_pl += 1
+                if got != f"g{n}_{q}":
+                    mism.append(f"MISMATCH {abi}:{','.join(types)} va={va} arg {q}: predicted {kind} {grp}{rid}@{off}, found {got}")
+        log(f"model validation vs clang -target {target}: {len(todo)} signatures")
+    return tot_sig, tot_pl, mism
